@@ -15,7 +15,7 @@ T = {
  "C01": ("exploration", "hexary_history", "dict shadow model + probe sweep after every operation of generated histories (history + executable model)",
          "Every generated history (direct and batched, prune on/off, adversarial prefix-related keys) is replayed on the real HexaryTrie while a dict model is updated at each return event; after every operation all four lookup spellings are compared with the model over stored keys, their prefixes, extensions, mid-path divergences, the empty key and fresh keys. Small scope (all op sequences <= 4 over 7 keys) enumerated in the thorough tier. Histories include undo routes back to earlier roots, runs of writes that are not observed in between, and four kinds of block-abort exceptions. Thorough tier adds icontract post-conditions (set => get) on the real methods, also under the repository's own tests."),
  "C02": ("exploration", "hexary_history", "root hash compared after every operation with a top-down Yellow-Paper reference construction (history + executable model), anchored by ethereum/tests vectors",
-         "After every operation of every generated history the root hash and the stored root body are compared with an independently written top-down canonical MPT construction from the model's key set; values are aimed at RLP lengths 30-33 and 55/56; insertion/deletion orders of small key sets are enumerated exhaustively. Every third history also attempts operations on an incomplete database (atomic failure or success) before the audits continue."),
+         "After every operation of every generated history the root hash and the stored root body are compared with an independently written top-down canonical MPT construction from the model's key set; values are aimed at RLP lengths 30-33 and 55/56; insertion/deletion orders of small key sets are enumerated exhaustively. Every third history also attempts operations on an incomplete database (atomic failure or success) before the audits continue. A quarter of the operations pass key and value in a subclass of bytes (the empty value included), and non-pruning histories fork the trie object with copy.copy and audit copy and original."),
  "C03": ("fault_enumeration", "hexary_faults", "proof corruption enumeration with model + reference path oracle and an independent hash-pointer verifier",
          "For every probe key of generated tries the honest proof is compared node for node with the reference path and verified; then every single-node drop, truncation, reordering, duplication, bit flips (value / child hash / path), splices from sibling tries, foreign-key proofs and foreign roots are offered to get_from_proof, whose answer must be the truth for that root or BadTrieProof. A moving-root part repeats the completeness checks for the same keys after every operation of generated histories (batch commits, aborts, root_hash reassignment)."),
  "C04": ("fault_enumeration", "hexary_history", "online trace specification on the database boundary (append-only, content-addressed) + per-root model snapshots + exhaustive failing-write positions",
@@ -27,21 +27,21 @@ T = {
  "C07": ("fault_enumeration", "hexary_faults", "missing-node subset enumeration with twin run on the complete database, reference nibble paths, state snapshots and retry-loop convergence checking",
          "For generated tries every subset of hidden node bodies (exhaustive for small tries, sampled otherwise) is combined with all six operations and traversal; results must equal the complete-database twin or be a truthful MissingTrieNode/MissingTraversalNode; failed calls must leave root, db and counts untouched; the supply-what-was-asked retry loop must converge asking each node once; no write may precede the failing read."),
  "C08": ("exploration", "hexary_walk", "traverse/traverse_from results compared at every nibble path with the reference trie's locate(); database reads counted at the db boundary",
-         "For generated tries every prefix of every key, extensions, divergences at every position and all short nibble strings are traversed and compared (node kind, sub-segments, value, suffix, partial-path exception fields, simulated node) with the reference; traverse_from from every node of a full walk must equal traverse, within one read per hop. A moving-root part judges root_node / traverse / traverse_from after every operation of generated histories (inside open blocks, after commits and aborts, after root_hash reassignment)."),
+         "For generated tries every prefix of every key, extensions, divergences at every position and all short nibble strings are traversed and compared (node kind, sub-segments, value, suffix, partial-path exception fields, simulated node) with the reference; traverse_from from every node of a full walk must equal traverse, within one read per hop. A moving-root part judges root_node / traverse / traverse_from after every operation of generated histories (inside open blocks, after commits and aborts, after root_hash reassignment). Paths are handed over as lists, tuples, Nibbles, deque, UserList, array and memoryview, and prefix + segment is composed from a plain tuple and the library's own sub-segment objects."),
  "C09": ("exploration", "hexary_walk", "fog-guided walk driver with model snapshots at every mutation; schedules of walk steps and mutations sampled and enumerated for small tries; termination decided on a logical visit bound",
          "The walk protocol of the statement is driven with random and structured selection orders, with/without frontier cache, pruning on/off, while set/delete operations are interleaved at sampled (and for small tries all) positions; stable keys must be met, nothing never-stored may be met, static walks must be exact, the walk must finish within a logical bound. Two walks over two tries, each with its own fog and frontier cache, are also run interleaved."),
  "C10": ("exploration", "hexary_walk", "NodeIterator outputs compared with the sorted model and the reference pre-order",
          "keys/items/values/nodes/next of NodeIterator are compared, for generated tries and a probe set of query keys, with the sorted dict model and the reference trie's pre-order node list. One long-lived iterator is additionally judged after every operation of generated histories that revisit earlier states."),
  "C11": ("exploration", "fog_model", "set-of-tuples model run in lock step with HexaryTrieFog; antichain / immutability as icontract invariants on the real class",
-         "Random and small-scope-exhaustive sequences of explore / mark_all_complete with all sub-segment kinds and the three invalid kinds; after every step the unexplored set, antichain, immutability of the receiver, commutation, serialisation round trip and the nearest_* queries are compared with a Python set model."),
+         "Random and small-scope-exhaustive sequences of explore / mark_all_complete with all sub-segment kinds and the three invalid kinds; after every step the unexplored set, antichain, immutability of the receiver, commutation, serialisation round trip and the nearest_* queries are compared with a Python set model. mark_all_complete lists that name a member twice must be refused."),
  "C12": ("exploration", "binary", "dict model with the refusal rule + top-down canonical binary trie reference, checked after every operation; database boundary trace for historical roots",
-         "Generated histories of set/delete/delete_subtrie over prefix-conflicting and fixed-length keys; after every call get/exists over a probe set, refusals, unchanged state after a raise, the canonical root and readability of all earlier roots are checked."),
+         "Generated histories of set/delete/delete_subtrie over prefix-conflicting and fixed-length keys; after every call get/exists over a probe set, refusals, unchanged state after a raise, the canonical root and readability of all earlier roots are checked. Writes use method and dict syntax and bytes-subclass arguments; a copy.copy of the trie object runs ahead in a quarter of the histories while the original is audited."),
  "C13": ("fault_enumeration", "binary", "branch / witness checking against the model and the reference node set, with enumeration of branch corruptions",
          "For generated binary tries and probe keys: get_branch + if_branch_valid against the model, every corruption of a branch (drop, truncate, bit flip, other key, other trie) must not validate a wrong answer; check_if_branch_exist, get_trie_nodes and witnesses compared with the model / reference node set. Values that are node hashes, and walks over partial (witness / root-only) databases interleaved with walks over the full one, are included."),
  "C14": ("exploration", "smt", "sparse recursive Merkle reference + dict model after every operation",
          "Generated histories over key sizes 1..32, blank and non-blank defaults and bit-flipped key families; after each operation get/exists, root, returned path hashes, calc_root over branches and from_db are compared with the reference. Explicit blank writes under both defaults and a second independent tree read in alternation are included."),
  "C15": ("exploration", "smt", "SparseMerkleProof fed the tree's update stream and compared with the tree after every update; every truncation length of the node list tried",
-         "A proof object receives every update of the tree (other keys at every differing bit position, own key, repeats, deletions) and must equal the tree's value/branch/root; lists truncated below the branch point must be rejected with ValidationError without effect, the exact minimum accepted."),
+         "A proof object receives every update of the tree (other keys at every differing bit position, own key, repeats, deletions) and must equal the tree's value/branch/root; lists truncated below the branch point must be rejected with ValidationError without effect, the exact minimum accepted. A quarter of the streams come from a tree re-opened with from_db."),
  "C16": ("exploration", "codecs", "encode/decode pairs compared with independently written codecs, exhaustively up to a bound and randomly beyond",
          "All nibble strings up to length 4/5, all bit strings up to 12/18, all 1- and 2-byte strings, all type bytes x boundary lengths of binary nodes, and random longer inputs are pushed through the repository's codecs and compared with reference implementations and their own inverses."),
  "C17": ("fault_enumeration", "scratch", "two-dict model of ScratchDB; all action sequences x exit positions enumerated; wrapped db observed at the database boundary",
